@@ -36,13 +36,18 @@ CLAIMED = {
             "equals the specification matrix cell by cell, and with a bound every cell is equal or both exceed "
             "the bound; C04_py_warping_paths_fill_as_written[_with_bound]: the fill part of dtw.warping_paths "
             "REGENERATED from dtw.py (Gen_pywps.v, tools/pyfun.py) fills exactly that matrix, with no subscript out "
-            "of range (PyWpsGen.v); dtw.warping_paths is compared with the as-written model and with the extracted "
+            "of range (PyWpsGen.v); C04_c_wps_kernel_as_written: the C kernel dtw_warping_paths_ndim REGENERATED "
+            "whole from dd_dtw.c (Gen_cwpsk.v, tools/cfun.py), run without a bound on any buffer, leaves in every "
+            "slot of the compact array the specification cell the layout assigns to it, no access out of range "
+            "(CWpsCanon/Kernel/Tie/Spec/Final.v); dtw.warping_paths is compared with the as-written model and with the extracted "
             "regenerated fill on every cell, the C full matrix, "
             "compact+expand and slice expansion cell-wise with the specification model applying the property's "
             "two freedoms",
             "a model of the C fill loops as written (regenerated geometry and recurrence text, CFillSim.v) is proved to "
             "store the specification matrix through the layout, and fill and expand address the same slot (CFill.v, "
-            "CExpand.v); pruning inside the C fill loop and float rounding are correspondence only; border-cell finding "
+            "CExpand.v); the bounded run (pruning by max_dist), the Euclidean twin, the value scans and the -1 marks of "
+            "the C kernels are regenerated and compared with the compiled kernels cell by cell (site c.wpsk) but not "
+            "proved; float rounding is correspondence only; border-cell finding "
             "F23 recorded",
             "Coq proof (cell-wise optimality + refinement of the as-written Python routine) + regenerated band + "
             "correspondence"),
@@ -109,7 +114,9 @@ CLAIMED = {
             "output block, for every length, window, slice; skip loops bounded; "
             "C08_c_dtw_distance*_accesses_in_bounds: in the four distance kernels regenerated WHOLE from dd_dtw.c "
             "(Gen_cdist.v, one bounds conjunct per array access) every read and write of the buffer and of the two "
-            "series is in range, for all inputs and any content of the fresh buffer; all exported routines "
+            "series is in range, for all inputs and any content of the fresh buffer; "
+            "C08_c_wps_kernel_accesses_in_bounds: the same for dtw_warping_paths_ndim regenerated whole (Gen_cwpsk.v), "
+            "run without a bound on any buffer of (l1+1)*width cells; all exported routines "
             "additionally run under AddressSanitizer+UBSan with exact-size caller buffers",
             "partial: dtw_wps_loc, negativize/positivize, dtw_wps_max, DBA and glue are sanitizer correspondence only "
             "(the traceback loops are proved under C05)",
